@@ -30,19 +30,29 @@ def cmp_step(act, to, g):
 
 
 def replay(chk, exe, cfg, np_, no_, tag):
-    r = vc.run_tlc("owning/Owning", "owning/" + cfg, timeout=3000, xmx="16g")
+    g = tour.Graph()
+    r = vc.run_tlc("owning/Owning", "owning/" + cfg, timeout=3000, xmx="6g", on_line={"EDGE": g.add})
     chk.add_tlc(cfg, r)
     if not r["ok"]:
         chk.model_violation(cfg, r)
         return
-    g = tour.Graph()
-    for ln in r["lines"]["EDGE"]:
-        g.add(ln)
-    r["lines"]["EDGE"] = None
     root = json.dumps(dict(ptr=[0] * np_, vec=[], obj=[], opt=[[] for _ in range(no_)]), separators=(",", ":"), sort_keys=True)
     paths, ncov, unreach = g.tours(root, max_len=30)
-    cases = [dict(np=np_, no=no_, steps=[dict(op=g.edges[i][1]["op"], args=g.edges[i][1]["args"]) for i in p]) for p in paths]
-    obs = vc.run_cases(exe, cases, chk.out, tag, per_case_timeout=10)
+    # in chunks: the cases and observations of several 10^5 paths are gigabytes when held at once
+    CH = 60000
+    for c0 in range(0, len(paths), CH):
+        chunk = paths[c0:c0 + CH]
+        cases = [dict(np=np_, no=no_, steps=[dict(op=g.edges[i][1]["op"], args=g.edges[i][1]["args"]) for i in p]) for p in chunk]
+        obs = vc.run_cases(exe, cases, chk.out, "%s_%d" % (tag, c0 // CH), per_case_timeout=10)
+        _compare_chunk(chk, g, chunk, cases, obs, np_, no_)
+        del cases, obs
+    chk.replayed += len(paths)
+    chk.notes.append("%s: %d paths cover %d of %d edges" % (tag, len(paths), ncov, len(g.edges)))
+    if paths:
+        chk.sample(dict(kind="spec->code tour path", steps=["%s%s" % (g.edges[i][1]["op"], g.edges[i][1]["args"]) for i in paths[len(paths) // 2]][:12]))
+
+
+def _compare_chunk(chk, g, paths, cases, obs, np_, no_):
     for p, c, o in zip(paths, cases, obs):
         if o.get("outcome") == "skipped":
             continue
@@ -64,10 +74,6 @@ def replay(chk, exe, cfg, np_, no_, tag):
         if ok and o.get("outcome") == "ok" and (o["end_twice"] or o["end_never"] or o["end_bad"] or o["end_v"]):
             chk.diverge("Destroy", "destroyed-twice" if o["end_twice"] else ("leak" if o["end_never"] or o["end_v"] else "bad-destroy"), dict(np=np_, no=no_, steps=c["steps"]),
                         "after all owners went away: %d objects destroyed twice, %d never, %d value objects left" % (o["end_twice"], o["end_never"], o["end_v"]))
-    chk.replayed += len(paths)
-    chk.notes.append("%s: %d paths cover %d of %d edges" % (tag, len(paths), ncov, len(g.edges)))
-    if paths:
-        chk.sample(dict(kind="spec->code tour path", steps=["%s%s" % (g.edges[i][1]["op"], g.edges[i][1]["args"]) for i in paths[len(paths) // 2]][:12]))
 
 
 def gen(rng, n):
